@@ -182,14 +182,25 @@ func ruleAztecEncoder(c *Ctx) {
 	n.Bind[userS.Common().Args[1]] = "w"
 	n.Bind[userS] = "st"
 	illegal, tooLarge := cFalse, cFalse
+	afterLoop := map[*ssa.BasicBlock]bool{}
+	for b := range reachableFrom(loopHdr) {
+		if !loopHdr.Dominates(b) {
+			afterLoop[b] = true
+		}
+	}
+	var postJoin []*ssa.Return
 	for _, ret := range returnsOf(fn) {
 		if !isNilConst(ret.Results[0]) || loopHdr.Dominates(ret.Block()) {
 			continue
 		}
 		rc := n.ReachCond(fn, nil, ret.Block())
-		if userT.Block().Dominates(ret.Block()) {
+		switch {
+		case userT.Block().Dominates(ret.Block()):
 			tooLarge = cOr(tooLarge, rc)
-		} else {
+		case afterLoop[ret.Block()]:
+			// rejections after both branches have merged are judged below (no-data guard)
+			postJoin = append(postJoin, ret)
+		default:
 			illegal = cOr(illegal, rc)
 		}
 	}
@@ -388,12 +399,155 @@ func ruleAztecEncoder(c *Ctx) {
 	}
 	// symbol size
 	if nac := byCallee("aztec.newAztecCode"); len(nac) == 1 {
-		cases := n.valueCases(fn, join, nac[0].Common().Args[0], 0)
+		cases := n.valueCases(fn, nil, nac[0].Common().Args[0], 0)
 		checkCases(c, R, "aztec.EncodeWithColor/matrix-size", nac[0].Pos(), cases, []edgeSpec{
 			{"11 + 4*Lf", "cf"},
 			{"14 + 4*Lf + 1 + 2*(((14 + 4*Lf)/2 - 1)/15)", "!cf"}})
 	} else {
 		c.Check(R, "aztec.EncodeWithColor/matrix-size", fn.Pos(), false, "one newAztecCode call", fmt.Sprint(len(nac)))
+	}
+	// rejections after the size selection: only "no data word"
+	for i, ret := range postJoin {
+		rc := n.ReachCond(fn, join, ret.Block())
+		c.expectCond(R, fmt.Sprintf("aztec.EncodeWithColor/no-data-iff#%d", i+1), ret.Pos(), rc, "stf.count/wf < 1")
+	}
+	checkAztecRefGrid(c, n, fn)
+}
+
+// A9: the reference grid of full-range symbols is complete. The symbol size reserves
+// ((14+4L)/2-1)/15 grid lines on each side of the centre line (matrix-size obligation above); the
+// loop that draws the lines advances 15 data modules / 16 symbol modules per line. For every layer
+// count 1..32 the number of iterations of that loop, obtained by evaluating its own continue
+// condition with the layer count substituted, must equal the number of reserved lines plus the
+// centre line - otherwise an outermost line is reserved but never drawn.
+func checkAztecRefGrid(c *Ctx, n *Normer, fn *ssa.Function) {
+	const R = "A9-AZTEC-REFGRID"
+	c.Doc(R, "aztec full-range symbols: the reference-grid loop (15 data modules / 16 symbol modules per step, starting at the centre) runs, for every layer count 1..32, exactly ((14+4L)/2-1)/15 + 1 times - as many lines as the symbol size reserves - evaluated from the loop's own continue condition with L substituted; the loop is reached only for full-range symbols and draws the four symmetric lines at centre -/+ j")
+	c.Floor(R, 33)
+	var Lf ssa.Value
+	for v, r := range n.Bind {
+		if r == "Lf" {
+			Lf = v
+		}
+	}
+	if Lf == nil {
+		c.Undecided(R, "aztec.EncodeWithColor/grid-loop", fn.Pos(), "final layer count not identified")
+		return
+	}
+	// the grid loop: header with two counters stepping 15 and 16
+	type gl struct {
+		F        *ssa.Function
+		path     []ssa.CallInstruction
+		hdr      *ssa.BasicBlock
+		i15, j16 ssa.Value
+		init15   Poly
+	}
+	var grid *gl
+	seen := map[*ssa.Function]bool{}
+	scan := func(F *ssa.Function, path []ssa.CallInstruction) {
+		if seen[F] {
+			return
+		}
+		seen[F] = true
+		saved := n.Ctx
+		n.Ctx = path
+		for _, b := range F.Blocks {
+			var g gl
+			for _, lv := range loopShapes(n, b) {
+				if k, ok := lv.step.IsConst(); ok && k == 15 {
+					g.i15, g.init15 = lv.idx, lv.init
+				} else if ok && k == 16 {
+					g.j16 = lv.idx
+				}
+			}
+			if g.i15 != nil && g.j16 != nil {
+				g.F, g.path, g.hdr = F, path, b
+				grid = &g
+			}
+		}
+		n.Ctx = saved
+	}
+	scan(fn, nil)
+	c.P.deepEach(fn, 2, func(s DeepSite) { scan(s.Fn, s.Path) })
+	if grid == nil {
+		c.Check(R, "aztec.EncodeWithColor/grid-loop", fn.Pos(), false, "a loop stepping 15 data modules / 16 symbol modules", "none")
+		return
+	}
+	saved := n.Ctx
+	defer func() { n.Ctx = saved }()
+	n.Ctx = grid.path
+	// reached only for full-range symbols
+	site := DeepSite{Ins: grid.hdr.Instrs[0], Fn: grid.F, Path: grid.path}
+	var join *ssa.BasicBlock
+	if p, ok := Lf.(*ssa.Phi); ok {
+		join = p.Block()
+	}
+	rc := n.ReachCondDeep(fn, join, site)
+	n.Ctx = grid.path
+	imp, _, w := CondRelation(rc, MustRefCond("!cf"))
+	c.Check(R, "aztec.EncodeWithColor/grid-only-full-range", grid.hdr.Instrs[0].Pos(), imp, "drawn only when the symbol is not compact", rc.String()+" "+w)
+	k0, ok0 := grid.init15.IsConst()
+	c.Check(R, "aztec.EncodeWithColor/grid-start", grid.hdr.Instrs[0].Pos(), ok0 && k0 == 0, "starts at the centre line", grid.init15.String())
+	// under !cf the base size is 14 + 4L: substitute for every value whose alternatives are
+	// {11+4L when compact, 14+4L otherwise}
+	baseEnv := map[ssa.Value]Poly{}
+	bind := func(F *ssa.Function) {
+		eachInstr(F, func(b *ssa.BasicBlock, ins ssa.Instruction) {
+			v, ok := ins.(ssa.Value)
+			if !ok || !isIntType(v.Type()) {
+				return
+			}
+			switch v.(type) {
+			case *ssa.Phi, *ssa.Call, *ssa.Extract:
+			default:
+				return
+			}
+			cs := n.valueCases(F, nil, v, 0)
+			if len(cs) != 2 {
+				return
+			}
+			a, b2 := cs[0].val.String(), cs[1].val.String()
+			w11, w14 := MustRef("11 + 4*Lf").String(), MustRef("14 + 4*Lf").String()
+			if (a == w11 && b2 == w14) || (a == w14 && b2 == w11) {
+				baseEnv[v] = MustRef("14 + 4*Lf")
+			}
+		})
+	}
+	bind(fn)
+	for lv := 1; lv <= 32; lv++ {
+		key := fmt.Sprintf("aztec.EncodeWithColor/grid-lines/L=%d", lv)
+		want := ((14+4*lv)/2-1)/15 + 1
+		got := 0
+		undecided := ""
+		for i := int64(0); i <= 15*12; i += 15 {
+			env := map[ssa.Value]Poly{Lf: pConst(int64(lv)), grid.i15: pConst(i)}
+			for v, p := range baseEnv {
+				q := Poly{}
+				for m, cf := range p {
+					q[m] = cf
+				}
+				// 14 + 4*Lf with Lf substituted
+				env[v] = pConst(int64(14 + 4*lv))
+				_ = q
+			}
+			n.env = append(n.env, env)
+			cond := n.EdgeCond(grid.hdr, grid.hdr.Succs[0])
+			n.env = n.env[:len(n.env)-1]
+			switch cond.Kind {
+			case CTrue:
+				got++
+				continue
+			case CFalse:
+			default:
+				undecided = cond.String()
+			}
+			break
+		}
+		if undecided != "" {
+			c.Undecided(R, key, grid.hdr.Instrs[0].Pos(), "continue condition does not evaluate with the layer count substituted: "+undecided)
+			continue
+		}
+		c.Check(R, key, grid.hdr.Instrs[0].Pos(), got == want, fmt.Sprintf("%d grid lines per direction incl. the centre line (the symbol size reserves that many)", want), fmt.Sprintf("the loop runs %d times", got))
 	}
 }
 
